@@ -21,6 +21,10 @@ from .types import NeedsContract, OutsideSubset
 PROVED, REFUTED, UNKNOWN, ERROR = "proved", "refuted", "unknown", "error"
 
 
+class NoReceiver(Exception):
+    pass
+
+
 @dataclasses.dataclass
 class OblResult:
     label: str  # func/clause
@@ -70,9 +74,10 @@ class Verifier:
             if idx == 0 and fi.cls is not None and fi.kind in ("method", "property") and p.arg == "self":
                 classes = self.receiver_classes(fi, ex, k)
                 if not classes:
-                    raise OutsideSubset(f"no concrete receiver class for {fi.qualname}")
+                    raise NoReceiver(f"no provided concrete class uses {fi.qualname} (reachable only through user-defined subclasses)")
                 v = SV(TRefT(fi.cls), smt.fresh_const("self", smt.Ref))
                 st.assume(v.z != smt.NONE, z3.Or(*[smt.typ(v.z) == ex.types.cid(c) for c in classes]), smt.born(v.z) <= 0)
+                st.assume(*[f for f in ex.type_facts(v.z, TRefT(fi.cls), st) if True])
                 if len(classes) == 1:
                     v = SV(TRefT(classes[0]), v.z)
                     ex.set_known_class(v, classes[0], st)
@@ -88,7 +93,7 @@ class Verifier:
                 # "self: Relation" on BaseRelation mixin methods
                 td = TRefT(fi.cls)
             v = td.fresh(p.arg)
-            st.assume(*ex.types.typing_fact(v.z, td))
+            st.assume(*ex.type_facts(v.z, td, st))
             if isinstance(td, TRefT):
                 st.assume(smt.born(v.z) <= 0)
             if isinstance(td, TSeqT):
@@ -104,7 +109,6 @@ class Verifier:
 
     def verify_function(self, key: str) -> tuple[list[OblResult], dict]:
         """Verify the function named by a contract key.  Returns obligation results and stats."""
-        k = self.reg.contracts[key]
         t0 = time.time()
         meta: dict[str, Any] = {"function": key, "paths": 0, "error": None}
         try:
@@ -112,6 +116,11 @@ class Verifier:
         except KeyError:
             meta["error"] = f"function {key} not found in the current tree"
             return [OblResult(f"{key}/exists", key, "exists", "", "structure", REFUTED, reason=meta["error"])], meta
+        k = self.new_exec().find_contract(fi, None)
+        if k is None:
+            meta["error"] = f"no contract for {key}"
+            return [OblResult(f"{key}/contract", key, "contract", "", "subset", ERROR, reason=meta["error"])], meta
+        meta["contract"] = k.key
         meta["source_hash"] = fi.source_hash()
         meta["lineno"] = fi.node.lineno
         try:
@@ -151,6 +160,9 @@ class Verifier:
                 results.append(OblResult(f"{key}/vacuity", key, "vacuity", "", "vacuity", ERROR, reason="no execution path"))
             meta["stats"] = dict(ex.stats)
             meta["assumed_contracts_used"] = sorted(ex.assumed_contracts_used)
+        except NoReceiver as e:
+            meta["skipped"] = str(e)
+            results = []
         except (OutsideSubset, NeedsContract) as e:
             meta["error"] = f"{type(e).__name__}: {e}"
             results = [OblResult(f"{key}/subset", key, "subset", "", "subset", ERROR, reason=meta["error"])]
@@ -171,13 +183,10 @@ class Verifier:
         if r.kind in ("return", "fall"):
             val = r.value if r.kind == "return" else smt.lift(None)
             td = ex.result_td(k, fi)
-            if isinstance(val, SV):
-                try:
-                    val2 = smt.coerce_to(val, td) if td != smt.TAny and not isinstance(td, TRefT) else val
-                    val2.fresh = val.fresh
-                    val = val2
-                except TypeError:
-                    pass
+            if td != smt.TAny and not isinstance(td, TRefT):
+                fresh = getattr(val, "fresh", False)
+                val = ex.to_sv(val, td, st, r.node)
+                val.fresh = fresh
             ctx.result = val
             for cl in k.ensures:
                 out.append(mk(cl.label, smt.lift(cl.fn(ctx)).z, "post"))
@@ -207,6 +216,10 @@ class Verifier:
             res.solver = "trivial"
             return res
         s = z3.Solver()
+        # E-matching only: valid obligations are engineered to discharge by E-matching; with MBQI off a
+        # failing obligation ends in "unknown (incomplete quantifiers)" in milliseconds instead of a timeout
+        s.set("auto_config", False)
+        s.set("smt.mbqi", False)
         s.set("timeout", self.timeout_ms)
         for a in ex.spec.axioms():
             s.add(a)
@@ -254,6 +267,39 @@ class Verifier:
             except Exception:
                 pass
         return out
+
+
+def short_key(fi: FuncInfo) -> str:
+    from .frontend import PKG
+
+    return fi.qualname[len(PKG) + 1:] if fi.qualname.startswith(PKG + ".") else fi.qualname
+
+
+def expand_keys(repo: Repo, reg: Registry, pid: str) -> list[str]:
+    """Functions to verify for a property: every contract tagged with it; virtual contracts expand
+    to every non-abstract implementation found in the current tree."""
+    out: list[str] = []
+    for key, c in reg.contracts.items():
+        if pid not in c.properties or c.assumed or key.startswith("attr:"):
+            continue
+        try:
+            fi = repo.func(key)
+        except KeyError:
+            out.append(key)  # reported as a structural failure by verify_function
+            continue
+        if c.virtual and fi.cls is not None:
+            for sub in repo.subclasses(fi.cls, concrete_only=False):
+                m = sub.methods.get(fi.name)
+                if m is not None and not m.abstract:
+                    k2 = m.key
+                    if k2 in reg.contracts and reg.contracts[k2] is not c and pid not in reg.contracts[k2].properties:
+                        continue
+                    if k2 not in out:
+                        out.append(k2)
+        elif not fi.abstract:
+            if key not in out:
+                out.append(key)
+    return out
 
 
 class ModelDescriber:
